@@ -700,6 +700,12 @@ func (g *Gen) forStmt() Stmt {
 			f.Post = &Assign{Target: &Ident{Name: i}, Op: "+=", X: &IntLit{V: int64(1 + g.pick(2))}}
 		} else if g.chance(1, 5) {
 			f.Post = &Assign{Target: &Ident{Name: i}, Op: "=", X: &Binary{Op: "+", L: &Ident{Name: i}, R: &IntLit{V: 1}}}
+		} else if g.chance(1, 6) {
+			// the post statement is an expression (its value has to be discarded); the counter advances at
+			// the top of the body, before any continue
+			f.Post = &ExprStmt{X: &Call{F: &Ident{Name: "len"}, Args: []Expr{&ListLit{Items: []Expr{&Ident{Name: i}}}}}}
+			f.Body = append(f.Body, &IncDec{Name: i, Op: "++"})
+			g.feat("for-post-expression")
 		} else {
 			f.Post = &IncDec{Name: i, Op: "++"}
 		}
